@@ -424,6 +424,12 @@ fn tt(vars: &[usize], n: u128) -> Sx {
 }
 
 pub fn main(out: &mut Out, o: &Opts) {
+    if o.parts.iter().any(|p| p == "files") {
+        part_files(out, o);
+        if o.parts.len() == 1 {
+            return;
+        }
+    }
     // all functions of 3 variables x 3 filters (two variable triples), all of 4 variables for filter Any in thorough
     for vars in [[0usize, 1, 2], [1, 4, 6]] {
         for n in 0..256u128 {
@@ -465,6 +471,75 @@ pub fn main(out: &mut Out, o: &Opts) {
         let f = crate::stext::rand_formula_free(&mut rng, depth, pool);
         out.emit("dottree", &Sx::l(vec![text_sx(&f)]).show(), &real_dottree(&f));
     }
+}
+
+/// the same two exports as written by the binary (`-d FILE`, `-p FILE`, with `-f` and `-m`), read back from the files
+pub fn part_files(out: &mut Out, o: &Opts) {
+    use crate::scli::{par_map, run_bin};
+    let bin = format!("{}/rsbdd", o.bindir);
+    let dir = std::path::PathBuf::from(format!("/verif/_build/tmp/{}", std::process::id()));
+    let _ = std::fs::create_dir_all(&dir);
+    let mut rng = Rng::new(o.seed ^ 0xd1);
+    let mut cases: Vec<(String, &'static str)> = vec![];
+    for f in crate::scli::FORMULAS.iter() {
+        if f.contains("fp ") {
+            continue;
+        }
+        for filt in ["a", "t", "f"] {
+            cases.push((f.to_string(), filt));
+        }
+    }
+    let n = if o.thorough { 5_000 } else { 300 };
+    for _ in 0..n {
+        let depth = 1 + rng.below(3) as u32;
+        let f = crate::stext::rand_formula(&mut rng, depth, &["a", "x'", "é", "_b", "q"]);
+        if f.contains("fp ") || f.contains("mu ") || f.contains("nu ") || f.contains("{") {
+            continue;
+        }
+        cases.push((f, *rng.pick(&["a", "t", "f"])));
+    }
+    let idx: Vec<usize> = (0..cases.len()).collect();
+    let res = par_map(&idx, |i| {
+        let (text, filt) = &cases[*i];
+        let d = dir.join(format!("d{i}.dot"));
+        let p = dir.join(format!("p{i}.dot"));
+        let mut args: Vec<String> = vec!["-r".into(), format!("--dot={}", d.display()), format!("--parsetree={}", p.display())];
+        match *filt {
+            "t" => args.push("--filter=true".into()),
+            "f" => args.push("--filter=false".into()),
+            _ => {}
+        }
+        let r = run_bin(&bin, &args, Some(text.as_bytes()), std::time::Duration::from_secs(20));
+        let dtext = std::fs::read_to_string(&d).unwrap_or_default();
+        let ptext = std::fs::read_to_string(&p).unwrap_or_default();
+        let _ = std::fs::remove_file(&d);
+        let _ = std::fs::remove_file(&p);
+        if r.timed_out {
+            return "(timeout)\u{1}(timeout)".to_string();
+        }
+        match r.code {
+            Some(0) => {}
+            Some(101) | None => return "(panic)\u{1}(panic)".to_string(),
+            Some(_) => return "(err)\u{1}(err)".to_string(),
+        }
+        // without an ordering the ids are 0, 1, ... in the order of the -r list
+        let names: HashMap<String, usize> = String::from_utf8_lossy(&r.stdout).lines().enumerate().map(|(i, l)| (l.to_string(), i)).collect();
+        let a = match parse_dot(&dtext) {
+            Some(g) => canon_bdd(&g, filt, &|l: &str| names.get(l).copied()),
+            None => "(unreadable-dot)".into(),
+        };
+        let b = match parse_dot(&ptext) {
+            Some(g) => canon_tree(&g, &names),
+            None => "(unreadable-dot)".into(),
+        };
+        format!("{a}\u{1}{b}")
+    });
+    for ((text, filt), ab) in cases.iter().zip(res.iter()) {
+        let (a, b) = ab.split_once('\u{1}').unwrap_or((ab.as_str(), ""));
+        out.emit("dotnamed", &Sx::l(vec![Sx::a(*filt), text_sx(text), Sx::a("binary")]).show(), a);
+        out.emit("dottree", &Sx::l(vec![text_sx(text), Sx::a("binary")]).show(), b);
+    }
+    let _ = std::fs::remove_dir_all(&dir);
 }
 
 pub fn replay(op: &str, args: &Sx) -> String {
